@@ -137,7 +137,7 @@ impl OpCode {
             OpCode::JumpIfStopIter => &[2],
             OpCode::Loop => &[2],
             OpCode::JumpFinally => &[],
-            OpCode::PushExcHandler => &[2, 2],
+            OpCode::PushExcHandler => &[2, 2, 2],
             OpCode::PopExcHandler => &[2, 2],
             OpCode::EndFinally => &[],
             OpCode::Throw => &[],
